@@ -12,6 +12,7 @@ F_HALF = "C16-create-measurement-half-applied"
 F_RENAME = "C16-policy-rename-stale-key"
 F_PANIC = "C16-ptview-without-database-panics-on-node-join"
 F_WRAP = "C16-restore-wraps-early-group-start"
+F_CANCEL = "C16-cancel-delete-revives-group-under-live-group"
 
 
 # ------------------------------------------------------------------------------------------------ rendering
@@ -44,16 +45,16 @@ def dump_coq(d, per, sclean):
                 coq_z(g["id"]), coq_z(g["start"]), coq_z(g["end"]), coq_bool(g["deleted"]), coq_z(g["eng"]),
                 coq_list(["{| ix_id := %s; ix_owners := %s; ix_mark := %s |}" % (coq_z(s["id"]), zl(s["owners"]), coq_bool(s["mark"]))
                           for s in g["indexes"]])) for g in rp["igs"]])
-            pols.append("{| rp_db := %s; rp_name := %s; rp_dur := %s; rp_sgdur := %s; rp_igdur := %s; rp_mark := %s; rp_msts := %s; "
+            pols.append("{| rp_db := %s; rp_name := %s; rp_nm := %s; rp_dur := %s; rp_sgdur := %s; rp_igdur := %s; rp_mark := %s; rp_msts := %s; "
                         "rp_vers := %s; rp_sgs := %s; rp_igs := %s |}" % (
-                            coq_z(code(db["key"])), coq_z(code(rp["key"])), coq_z(rp["d"]), coq_z(rp["sgd"]), coq_z(rp["igd"]),
+                            coq_z(code(db["key"])), coq_z(code(rp["key"])), coq_z(code(rp["name"])), coq_z(rp["d"]), coq_z(rp["sgd"]), coq_z(rp["igd"]),
                             coq_bool(rp["mark"]), msts, vers, sgs, igs))
     nodes = coq_list(["{| nd_id := %s; nd_http := %s; nd_tcp := %s; nd_conn := %s |}" % (
         coq_z(n["id"]), coq_z(int(n["host"][1:].split(":")[0])), coq_z(int(n["tcp"][1:].split(":")[0])), coq_z(n["conn"])) for n in d["nodes"]])
     ptv = coq_list(["(%s, %s)" % (coq_z(code(v["db"])), coq_list([
         "{| pt_owner := %s; pt_status := %s; pt_ver := %s |}" % (coq_z(p["owner"]), coq_z(p["status"]), coq_z(p["ver"])) for p in v["pts"]]))
         for v in d["ptview"]])
-    return ("{| dbs := %s; pols := %s; nodes := %s; ptview := %s; ptnum := %s; ptper := %s; sclean := %s; clampst := false; max_node := %s; max_sg := %s; "
+    return ("{| dbs := %s; pols := %s; nodes := %s; ptview := %s; ptnum := %s; ptper := %s; sclean := %s; clampst := false; schemafirst := false; rekey := false; safecancel := false; max_node := %s; max_sg := %s; "
             "max_sh := %s; max_mst := %s; max_ig := %s; max_ix := %s; max_conn := %s |}" % (
                 coq_list(dbs), coq_list(pols), nodes, ptv, coq_z(d["ptnum"]), coq_z(per), coq_bool(sclean), coq_z(d["max_node"]),
                 coq_z(d["max_sg"]), coq_z(d["max_sh"]), coq_z(d["max_mst"]), coq_z(d["max_ig"]), coq_z(d["max_ix"]), coq_z(d["max_conn"])))
@@ -114,27 +115,46 @@ def cmd_coq(c):
     return None
 
 
+def cmd_coq_x(c):
+    """the commands of the C16 model incl. those added in round 5 (cmd_coq keeps its old range: props/C15/run.py imports it)"""
+    k, x = c["k"], c.get("x")
+    db, rp, m = coq_z(c.get("db", 0)), coq_z(c.get("rp", 0)), coq_z(c.get("m", 0))
+    if k == "expand":
+        return "XExpand"
+    if k == "cmst" and x == "badschema":
+        return "Base (CreateMstBad %s %s %s)" % (db, rp, m)
+    if k == "urp" and x == "rename":
+        return "Base (RenameRp %s %s %s %s %s %s)" % (db, rp, m, opt(c.get("d")), opt(c.get("sgd")), coq_bool(c.get("def", False)))
+    if k == "delsg" and x == "cancel":
+        return "Base (CancelDeleteSg %s %s %s)" % (db, rp, coq_z(c.get("id", 0)))
+    if k == "rmnode":
+        return "Base (RemoveNode %s)" % coq_z(c.get("id", 0))
+    t = cmd_coq(c)
+    return None if t is None else "Base (%s)" % t
+
+
 def case_coq(cs):
     steps = []
     modelled = cs["modelled"]
     for c, r, d in zip(cs["cmds"], cs["res"], cs["dumps"]):
         if r == 2:
             break   # the state machine panicked: nothing to compare, the process is gone
-        t = cmd_coq(c) if modelled else None
+        t = cmd_coq_x(c) if modelled else None
         if t is None:
             modelled = False
-            t = "PruneSg 0%Z"
+            t = "Base (PruneSg 0%Z)"
         steps.append("(%s, %s, %s)" % (t, coq_bool(r == 0), dump_coq(d, cs["ptper"], cs["sclean"])))
     return "(%s, %s, %s, %s)" % (coq_z(cs["ptper"]), coq_bool(cs["sclean"]), coq_bool(modelled), coq_list(steps)), modelled
 
 
-VERDICT_RE = re.compile(r"v_match\s*:=\s*\[(.*?)\];\s*v_wf\s*:=\s*\[(.*?)\]", re.S)
-# (clip, cleardef, clamp) in the order of Corr.variants: new groups clipped to their neighbours / dropping the default policy
-# clears the default name / group starts clamped to MinNanoTime
-VARIANTS = ["cur", "clip", "clear", "clip+clear", "clamp", "clip+clamp", "clear+clamp", "rep"]
+VERDICT_RE = re.compile(r"v_match\s*:=\s*\[(.*?)\];\s*v_wf\s*:=\s*\[(.*?)\];\s*v_cover\s*:=\s*\[(.*?)\]", re.S)
+# code variants in the order of Corr.variants: today's tree; with the offered repair of one / both open findings (new groups
+# clipped to their neighbours = fix3.patch, guarded cancel-delete = fix4.patch); today's tree with one landed repair reverted
+VARIANTS = ["head", "head+clip", "head+safecancel", "rep", "head-b424c13(default cleared)", "head-3695b47(start clamped)",
+            "head-f21700b(schema first)", "head-f36a23d(rename re-keys)"]
 
 WF_KINDS = {"overlap", "unaligned", "unsorted", "dup-id", "id-over-counter", "dangling-index", "dangling-owner", "default-missing",
-            "ptview-size", "empty-span"}
+            "ptview-size", "empty-span", "key-name-mismatch"}
 
 
 # ------------------------------------------------------------------------------------------------ signatures
@@ -154,6 +174,15 @@ def classify(cs, f):
                 if any(g in a and a[g] < -2**63 and b.get(g) != a[g] for g in gids):
                     return F_WRAP
     if k == "overlap":
+        # one of the two groups was deleted and revived by DeleteShardGroup(CancelDelete) at or before this step, while the other
+        # one was live: find the cancel command that first produced this very overlap
+        first = step
+        for g in cs["oracle"]:
+            if g["kind"] == k and g["detail"].get("g1") == d.get("g1") and g["detail"].get("g2") == d.get("g2"):
+                first = min(first, g["step"])
+        c0 = cs["cmds"][first]
+        if c0["k"] == "delsg" and c0.get("x") == "cancel" and str(c0.get("id", 0)) in (d.get("g1"), d.get("g2")):
+            return F_CANCEL
         # two live groups of one policy and engine type created under different shard-group durations
         if d["dur1"] != d["dur2"]:
             return F_OVERLAP
@@ -202,7 +231,7 @@ def main(ck):
     ck.cov["trusted_base"] = ["Coq 8.16.1 kernel + vm_compute (cases evaluation, witnesses, Examples)", "no axioms (Print Assumptions: closed)",
                               "Go harness cmd/c16 (dump, direct oracle, generator), python driver props/C16/run.py (dump -> Coq term)"]
     ck.coq_audit(["C16"])
-    ok = ck.coq_build(["C16/Props.vo", "C16/Refuted.vo", "C16/Corr.vo"], timeout=2400)
+    ok = ck.coq_build(["C16/Props.vo", "C16/Refuted.vo", "C16/Corr.vo", "C16/Expand.vo"], timeout=2400)
     if ok:
         ck.coq_props(["C16/Props.v", "C16/Refuted.v"])
     binp = ck.go_build("./cmd/c16", "c16")
@@ -256,7 +285,7 @@ def main(ck):
             terms.append(t)
             modelled.append(m)
         files.append(("cases%d" % (i // shard),
-                      "From Coq Require Import ZArith List Bool. From OG Require Import C16.Model C16.Corr.\n"
+                      "From Coq Require Import ZArith List Bool. From OG Require Import C16.Model C16.Expand C16.Corr.\n"
                       "Import ListNotations. Open Scope Z_scope.\n"
                       "Definition cases : list (Z * bool * bool * list step_obs) := [\n%s\n].\n"
                       "Definition M := Eval vm_compute in check_cases cases.\nPrint M.\n" % ";\n".join(terms)))
@@ -269,10 +298,11 @@ def main(ck):
             ck.broken.append("model evaluation failed on shard %d: %s" % (idx, o[-600:]))
             verdicts += [None] * want
             continue
-        for mt, wf in vs:
+        for mt, wf, cov in vs:
             nums = [int(x) for x in re.findall(r"-?\d+", mt)]
             v = {name: nums[k] for k, name in enumerate(VARIANTS)}
             v["wf"] = [int(x) for x in re.findall(r"\d+", wf)]
+            v["cover"] = [int(x) for x in re.findall(r"\d+", cov)]
             verdicts.append(v)
 
     # ---- which variant does the working tree implement?
@@ -315,9 +345,13 @@ def main(ck):
         # the boolean well-formedness of the model, evaluated on the real dumps, agrees with the Go oracle
         v = verdicts[i] if i < len(verdicts) else None
         if v is not None:
-            go_bad = sorted({f["step"] for f in cs["oracle"] if f["kind"] in WF_KINDS and cs["res"][f["step"]] != 2})
+            go_bad = sorted({f["step"] for f in cs["oracle"] if f["kind"] in WF_KINDS and cs["res"][f["step"]] != 2
+                             and not (f["kind"] == "key-name-mismatch" and f["detail"].get("what") != "rp")})
             if go_bad != sorted(v["wf"]):
                 ck.broken.append("wf_b (Coq, on the real dumps) and the Go oracle disagree on case %s: coq=%s go=%s" % (cs["name"], v["wf"], go_bad))
+            go_cov = sorted({f["step"] for f in cs["oracle"] if f["kind"] == "index-ends-early" and cs["res"][f["step"]] != 2})
+            if go_cov != sorted(v["cover"]):
+                ck.broken.append("covered_b (Coq, on the real dumps) and the Go oracle disagree on case %s: coq=%s go=%s" % (cs["name"], v["cover"], go_cov))
     seen_v = set()
     for i, f in oracle_unknown:
         cs = cases[i]
@@ -329,7 +363,6 @@ def main(ck):
                       {"cmds": cs["cmds"][:f["step"] + 1]}, "explanation": "the catalogue dumped from the real meta.Data after this command "
                       "sequence violates the C16 statement (%s) outside every known-finding signature" % f["kind"]})
     if ok and not impl and not oracle_unknown:
-        name = "cur" if "cur" in first_bad else variants[0]
         best = max(first_bad.items(), key=lambda kv: kv[1][0])  # the variant that survived longest
         i, k = best[1]
         ck.broken.append("correspondence C16: no model variant (today's code / repaired) matches the implementation; "
@@ -338,7 +371,7 @@ def main(ck):
                             {"cmds": cases[i]["cmds"][:k + 1]}, "step": k, "first_differences": {n: [cases[a]["name"], b] for n, (a, b) in first_bad.items()},
                             "explanation": "model and implementation states differ after this command; the direct oracle found no "
                             "violation of the statement outside the known findings"}
-    for fid in (F_OVERLAP, F_DEFAULT, F_HALF, F_RENAME, F_PANIC, F_WRAP):
+    for fid in (F_OVERLAP, F_DEFAULT, F_HALF, F_RENAME, F_PANIC, F_WRAP, F_CANCEL):
         if ck.match_finding(fid) and fid not in reported and not getattr(ck, "replay", None):
             ck.notes.append("open finding %s did not reproduce in this run (stale?)" % fid)
 
